@@ -608,7 +608,11 @@ def check(run):
         return SCell(root_label, [cur, cur])
     # (root label, label of the fork cells: n = 0 in a length field of whatever width the parser reads there)
     labels = {'hml_short n=3 > m=2': ('0' + '1110' + '101', '00'), 'hml_long n=3 > m=2': ('10' + '11' + '101', '10' + '0' * 12),
-              'hml_same n=3 > m=2': ('11' + '1' + '11', '110' + '0' * 12)}
+              'hml_same n=3 > m=2': ('11' + '1' + '11', '110' + '0' * 12),
+              # a unary length that is never closed (the cell ends inside the run of ones): not a label at all - a parser that takes it for one
+              # of length "-1" hands every child as much key as its parent had
+              'hml_short with an unterminated unary length': ('0' + '111', '0' + '111'),
+              'hml_short with an unterminated unary length (longer run)': ('0' + '1' * 9, '0' + '1' * 5)}
     ddepths = (5, 9, 13) if run.tier != 'thorough' else (5, 9, 13, 17, 21)
     for entry in ('parse_hashmap', 'parse_hashmap_aug'):
         for lname, lab in labels.items():
